@@ -41,6 +41,12 @@ def scenarios(ctx, thorough):
     for h in hists[: (200 if thorough else 20)]:
         sid += 1
         scs.append(S.mk(sid, "tlc-junk", "robust", S.project(h, rng2, S.ALL_KINDS), gates=["send.genid"]))
+    # messages addressed to a request that was rejected with bad_server_salt and re-sent under a new id
+    for w in ("late_result_for_rejected", "repeated_bad_salt"):
+        sid += 1
+        scs.append(S.mk(sid, "after-rotation-" + w, "robust",
+                        [P(90), {"a": "Rotate"}, S.call("c1", 11), {"a": "Answer", "tags": [11], "n": 600}, {"a": "Await", "c": "c1"},
+                         {"a": "Push", "what": w}, {"a": "Settle"}, P(91), {"a": "Push", "what": w}, P(92), {"a": "Settle"}]))
     # orderly close between messages, then a probe: reconnect with the same key
     for w in [None] + (ALPHABET if thorough else ALPHABET[:8]):
         sid += 1
